@@ -156,3 +156,11 @@ Proof.
   revert l2. induction l1 as [|x l1 IH]; intros l2 H; [reflexivity|].
   destruct l2 as [|y l2]; simpl in *; [lia|]. f_equal. apply IH. lia.
 Qed.
+
+Lemma last_map {A B} (f : A -> B) (l : list A) d d' : l <> [] -> last (map f l) d' = f (last l d).
+Proof.
+  induction l as [|x l IH]; intros H; [congruence|].
+  destruct l as [|y l]; [reflexivity|].
+  change (last (map f (x :: y :: l)) d') with (last (map f (y :: l)) d').
+  change (last (x :: y :: l) d) with (last (y :: l) d). apply IH. discriminate.
+Qed.
